@@ -426,3 +426,22 @@ m("c18-merge-value-fix-reverted", "C18", "O18.7", ("src/cobald/daemon/core/confi
 m("c18-merge-value-check-inverted", "C18", "O18.7", ("src/cobald/daemon/core/config.py", "                        self.construct_undefined(merged_node)\n", "                        pass\n"))
 m("c18-merge-value-list-node-unchecked", "C18", "O18.7", ("src/cobald/daemon/core/config.py", "                    merged = [value_node, *value_node.value]\n", "                    merged = [*value_node.value]\n"))
 m("c18-merge-value-elements-unchecked", "C18", "O18.7", ("src/cobald/daemon/core/config.py", "                    merged = [value_node, *value_node.value]\n", "                    pass\n"))
+# ---- round 7: value domains, scopes and lifetimes
+m("c15-hit-list-generator", "C15", "O0.6", ("src/cobald/composite/factory.py", "        hit_list = sorted(\n            self._hatchery, key=lambda child: child.supply * child.utilisation\n        )\n", "        hit_list = (child for child in sorted(\n            self._hatchery, key=lambda child: child.supply * child.utilisation\n        ))\n"))
+m("c09-slave-table-late-binding", "C09", "O0.5", ("src/cobald/controller/switch.py", "        for _, slave in self._slaves:\n            slave.target = target\n        self.interval = interval\n", "        for _, slave in self._slaves:\n            slave.target = target\n        self._regulators = []\n        for _, slave in self._slaves:\n            self._regulators.append(lambda interval: slave.regulate(interval))\n        self.interval = interval\n"))
+m("c02-close-snapshot-once", "C02", "O2.3", (R + "asyncio_runner.py", "        while self._tasks:\n            for task in self._tasks.copy():\n", "        pending = self._tasks.copy()\n        while self._tasks:\n            for task in pending:\n"))
+m("c01-channel-as-context-manager", "C01", "O3.5", (R + "trio_runner.py", "                self._submit_tasks.send_nowait(payload)\n", "                with self._submit_tasks as channel:\n                    channel.send_nowait(payload)\n"))
+m("c03-channel-as-context-manager", "C03", "O3.5", (R + "trio_runner.py", "                self._submit_tasks.send_nowait(payload)\n", "                with self._submit_tasks as channel:\n                    channel.send_nowait(payload)\n"))
+m("c01-flush-drops-last", "C01", "O3.1", (R + "meta_runner.py", "            self.register_payload(*queue, flavour=flavour)\n", "            self.register_payload(*queue[:-1], flavour=flavour)\n"))
+m("c03-flag-reset-in-finally", "C03", "O3.7", (R + "service.py", "        finally:\n            self.running.clear()\n            self._is_shutdown.set()\n", "        finally:\n            self._must_shutdown = False\n            self.running.clear()\n            self._is_shutdown.set()\n"))
+m("c13-flag-reset-in-finally", "C13", "O3.7", (R + "service.py", "        finally:\n            self.running.clear()\n            self._is_shutdown.set()\n", "        finally:\n            self._must_shutdown = False\n            self.running.clear()\n            self._is_shutdown.set()\n"))
+m("c13-channel-capacity-zero", "C13", "O3.8", (R + "trio_runner.py", '            max_buffer_size=float("inf")\n', "            max_buffer_size=0\n"))
+m("c05-load-name-one-attribute", "C05", "O19.5", ("src/cobald/daemon/config/mapping.py", "                for component in path[1:]:\n", "                for component in path[-1:]:\n"))
+m("c19-load-name-start-inner-module", "C19", "O19.5", ("src/cobald/daemon/config/mapping.py", "                obj = sys.modules[path[0]]\n", '                obj = sys.modules[".".join(path[:-1])]\n'))
+m("c04-signature-conditional", "C04", "O4.3", (R + "service.py", "        if signature is not None:\n", "        if signature is not None and signature.parameters:\n"))
+m("c12-sweep-adopted-in-init", "C12", "O12.4", (R + "service.py", "        self.accept_delay = accept_delay\n", "        self.accept_delay = accept_delay\n        self.adopt(self._accept_services, flavour=trio)\n"), (R + "service.py", '        self._logger.info("%s starting", self.__class__.__name__)\n        self.adopt(self._accept_services, flavour=trio)\n', '        self._logger.info("%s starting", self.__class__.__name__)\n'))
+m("c19-walk-state-on-instance", "C19", "O19.1", (G + "core/config.py", "            prev_item, items = None, []\n", "            prev_item, items = None, self.elements\n            items.clear()\n"), (G + "core/config.py", '    def translate_hierarchy(self, structure, *, where="", **construct_kwargs):\n        try:\n            pipeline = structure["pipeline"]\n', '    def __init__(self):\n        self.elements = []\n\n    def translate_hierarchy(self, structure, *, where="", **construct_kwargs):\n        try:\n            pipeline = structure["pipeline"]\n'))
+n("c19-walk-result-also-on-instance", "C19", (G + "core/config.py", "            prev_item, items = None, []\n", "            prev_item, items = None, []\n            self.last_elements = items\n"))
+n("c15-hit-list-generator-used-once", "C15", ("src/cobald/composite/factory.py", "        excess_demand = sum(child.demand for child in hit_list) - target\n", "        demands = (child.demand for child in hit_list)\n        excess_demand = sum(demands) - target\n"))
+n("c09-slave-table-bound-default", "C09", ("src/cobald/controller/switch.py", "        for _, slave in self._slaves:\n            slave.target = target\n        self.interval = interval\n", "        for _, slave in self._slaves:\n            slave.target = target\n        self._regulators = []\n        for _, slave in self._slaves:\n            self._regulators.append(lambda interval, slave=slave: slave.regulate(interval))\n        self.interval = interval\n"))
+n("c02-close-snapshot-per-round", "C02", (R + "asyncio_runner.py", "            for task in self._tasks.copy():\n", "            pending = self._tasks.copy()\n            for task in pending:\n"))
